@@ -185,6 +185,9 @@ M = [
  ('m_c08_mergesubset', 'C08', 'cylc/flow/task_pool.py',
   "        if not flow_nums or flow_nums.issubset(itask.flow_nums):",
   "        if not flow_nums or (flow_nums == itask.flow_nums):"),
+ ('m_c11_usercompletion', 'C11', 'cylc/flow/task_outputs.py',
+  "    completion = tdef.rtconfig.get('completion')\n    if completion:",
+  "    completion = tdef.rtconfig.get('completion')\n    if False:"),
  ('m_c09_started_back', 'C09', 'cylc/flow/task_events_mgr.py',
   "            if flag == self.FLAG_RECEIVED and itask.state.is_gt(\n                TASK_STATUS_RUNNING\n            ):\n                # Already running.\n                return True",
   "            if False:\n                # Already running.\n                return True"),
